@@ -34,68 +34,118 @@ ASSUMPTIONS = ["tests on a path are not correlated (adds infeasible paths only; 
 TRUSTED = ["CPython ast", "sa.paths enumeration"]
 
 
+def _strip_tags(t: str) -> str:
+    import re
+    return re.sub(r"@\d+", "", t)
+
+
+def stat_stores(m, f):
+    """The statistic updates of one counted method from its normal form (sa.symflow + exclusive-store merge):
+    {field: [(value text, value AST, condition AST)]}, the raise conditions, and the flow."""
+    from ..flowspec import _cond_ast, _merge_exclusive_stores
+    from ..parsershape import normal_flow
+    fl = normal_flow(m, f)
+    out: dict = {k: [] for k in ("accesses", "hits", "last_was_hit", "cycles")}
+    raises = []
+    for e, expr, cond in _merge_exclusive_stores(fl):
+        if e.kind == "raise":
+            raises.append(_cond_ast(cond))
+        if e.kind != "store" or not isinstance(expr, ast.Assign):
+            continue
+        tgt = _strip_tags(fl.canon(expr.targets[0]))
+        for fld, want in (("accesses", "P0.accesses"), ("hits", "P0.hits"), ("last_was_hit", "P0.last_was_hit"), ("cycles", "P0.performance_metrics.cycles")):
+            if tgt == want:
+                out[fld].append((_strip_tags(fl.canon(expr.value)), expr.value, _cond_ast(cond), e))
+    return out, raises, fl
+
+
 def acct_rule(ctx: Ctx, rid: str = "R09.acct", only=None, penalty_only: bool = False) -> None:
+    """Accounting of every counted method, decided on its normal form: with C = "this call is counted" (update_statistics /
+    not directly_write_to_lower_memory / always for the instruction cache), A = the condition under which `accesses` is
+    incremented and H = the value stored in `last_was_hit`:
+        A implies C, and a counted call that is not accounted ends in a raise (rejected access);
+        accesses += 1, last_was_hit = H and hits += int(H) (or += 1 under H) exactly under A, each once;
+        cycles += miss_penality exactly under A and not H, once.
+    Conditions are compared as truth functions, so flags, early returns, helpers and `if hit: .. else: ..` are one form."""
+    from ..symflow import Printer
     m = ctx.model
-    r = ctx.rule(rid, "accounting group exactly once on counted paths, never on uncounted ones")
-    total_paths = 0
+    r = ctx.rule(rid, "accounting group exactly once on counted accesses, never on uncounted ones (normal-form stores, truth-function conditions)")
+    n_inst = 0
     for f, kind in counted_methods(m):
         if only is not None and not only(f):
             continue
         key0 = short(f.qname)
-        pcs = classify(f, kind)
-        for j, pc in enumerate(pcs):
-            if pc.path.term == "raise":
-                continue
-            total_paths += 1
-            label = ("counted" if pc.counted else "uncounted" if pc.counted is False else "flag-untested") + \
-                    ("/miss" if pc.hit_pol is False else "/hit" if pc.hit_pol else "")
-            key = f"{key0}|{label}"
-            r.inst(key, None)
-            probs = []
-            if penalty_only:
-                pc.acc, pc.hits_val, pc.hits_lit, pc.last = [], [], [], []
-                pc.acc_bad, pc.hits_bad, pc.last_bad = [], [], []
-            stats = len(pc.acc) + len(pc.hits_val) + len(pc.hits_lit) + len(pc.last) + len(pc.pen) \
-                + len(pc.acc_bad) + len(pc.hits_bad) + len(pc.last_bad) + len(pc.pen_bad)
-            if pc.acc_bad or pc.hits_bad or pc.last_bad or pc.pen_bad:
-                n = (pc.acc_bad + pc.hits_bad + pc.last_bad + pc.pen_bad)[0]
-                probs.append((n, f"unrecognised statistic update `{seg(f, n)}`"))
-            if pc.counted is None:
-                if stats:
-                    probs.append((f.node, "statistics are updated on a path that never consults the "
-                                  "update_statistics / directly_write_to_lower_memory flag"))
-            elif pc.counted is False:
-                if stats:
-                    n = (pc.acc + pc.hits_val + [x[0] for x in pc.hits_lit] + pc.last + [x[0] for x in pc.pen] + [f.node])[0]
-                    probs.append((n, "an uncounted access updates statistics"))
-            else:
-                if penalty_only:
-                    # C07 cares about the cycle counter only: exactly the miss penalty on counted misses
-                    pc.acc, pc.last = [None], [None]
-                    pc.hits_val, pc.hits_lit = [None], []
-                if len(pc.acc) != 1:
-                    probs.append((f.node, f"`accesses += 1` occurs {len(pc.acc)} times on a counted path"))
-                if pc.hits_val:
-                    if len(pc.hits_val) != 1 or pc.hits_lit:
-                        probs.append((pc.hits_val[0], "hit counter updated more than once"))
-                else:
-                    want = 1 if pc.hit_pol else 0
-                    if pc.hit_pol is None or len(pc.hits_lit) != want or any(pol is not True for _, pol in pc.hits_lit):
-                        probs.append((f.node, "hit counter is not updated by the hit flag on a counted path"))
-                if len(pc.last) != 1:
-                    probs.append((f.node, f"`last_was_hit = hit` occurs {len(pc.last)} times on a counted path"))
-                if pc.hit_pol is None:
-                    probs.append((f.node, "the miss penalty is not conditioned on the hit flag"))
-                elif pc.hit_pol is False and len(pc.pen) != 1:
-                    probs.append((f.node, f"miss path adds the penalty {len(pc.pen)} times"))
-                elif pc.hit_pol is True and pc.pen:
-                    probs.append((pc.pen[0][0], "hit path adds the miss penalty"))
-                if any(pol is not False for _, pol in pc.pen):
-                    probs.append((pc.pen[0][0], "miss penalty is added outside the `not hit` branch"))
-            for n, msg in probs[:1]:
-                r.viol(key, f.loc(n), f"{key0}: {msg}", ["path assumptions:"] + pc.path.assumptions())
-    ctx.extra.setdefault("paths_enumerated", {})[rid] = total_paths
-    r.floor(30 if only is None else 2)
+        st, raises, fl = stat_stores(m, f)
+        pr = Printer(m, f.params, {}, canonical=True)
+
+        def same(a_: ast.AST, b_: ast.AST) -> bool:
+            t = pr._tables([pr._bool(a_), pr._bool(b_)])
+            return t is not None and t[1][0] == t[1][1]
+
+        def conj_(*xs):
+            xs = [x for x in xs if x is not None]
+            return xs[0] if len(xs) == 1 else ast.BoolOp(op=ast.And(), values=list(xs))
+
+        def neg(x):
+            return ast.UnaryOp(op=ast.Not(), operand=x)
+
+        if kind == "read":
+            C: ast.AST = ast.Name(id="update_statistics", ctx=ast.Load())
+        elif kind == "write":
+            C = neg(ast.Name(id="directly_write_to_lower_memory", ctx=ast.Load()))
+        else:
+            C = ast.Constant(value=True)
+        key = f"{key0}|counted"
+        n_inst += 1
+        r.inst(key, {k: [(v[0], fl.cprinter.show_test(v[2])) for v in vs] for k, vs in st.items()})
+        probs: list = []
+        loc = f.loc()
+        if not penalty_only:
+            if len(st["accesses"]) != 1 or st["accesses"][0][0] != "Add(1, P0.accesses)":
+                probs.append(f"`accesses += 1` must happen exactly once per counted access; found {[v[0] for v in st['accesses']]}")
+        if not st["last_was_hit"] or (not st["accesses"] and not penalty_only):
+            if not probs:
+                probs.append("the last-access hit flag is not recorded")
+        if not probs:
+            H = st["last_was_hit"][0][1]
+            A = st["accesses"][0][2] if st["accesses"] else st["last_was_hit"][0][2]
+            Htxt = st["last_was_hit"][0][0]
+            # A implies C; counted calls that are not accounted are rejected (raise)
+            if not same(conj_(A, neg(C)), ast.Constant(value=False)):
+                probs.append("an uncounted access (update_statistics false / direct write) updates the statistics")
+            rej = ast.BoolOp(op=ast.Or(), values=raises) if len(raises) > 1 else raises[0] if raises else ast.Constant(value=False)
+            if not probs and not same(conj_(C, neg(A)), conj_(C, rej)):
+                probs.append("a counted access that is not rejected leaves `accesses` untouched")
+            if not penalty_only:
+                if len(st["last_was_hit"]) != 1 or not same(st["last_was_hit"][0][2], A):
+                    probs.append(f"`last_was_hit` is not set exactly once on every counted access")
+                hs = st["hits"]
+                ok_h = False
+                if len(hs) == 1:
+                    v, vast, c, _e = hs[0]
+                    if v in (f"Add(P0.hits, int({Htxt}))", f"Add(P0.hits, {Htxt})", f"Add(P0.hits, int(B:{Htxt}))") and same(c, A):
+                        ok_h = True
+                    elif v == "Add(1, P0.hits)" and same(c, conj_(A, H)):
+                        ok_h = True
+                    elif v.startswith("cases[") and same(c, A):
+                        # hits = hits + 1 if H else hits
+                        leaves = fl.cprinter.show(ast.IfExp(test=H, body=ast.parse("self.hits + 1", mode="eval").body,
+                                                            orelse=ast.parse("self.hits", mode="eval").body))
+                        ok_h = _strip_tags(leaves).replace("self.", "P0.") == v
+                if not ok_h:
+                    probs.append(f"the hit counter is not incremented exactly on counted hits (by the recorded hit flag); found {[(x[0], fl.cprinter.show_test(x[2])) for x in hs]}")
+                    if hs:
+                        loc = f.loc(hs[0][3].node)
+            cy = st["cycles"]
+            if len(cy) != 1 or cy[0][0] != "Add(P0.miss_penality, P0.performance_metrics.cycles)" or not same(cy[0][2], conj_(A, neg(H))):
+                probs.append("the miss penalty is not added exactly once on every counted miss and never on a hit / uncounted access; found "
+                             f"{[(x[0], fl.cprinter.show_test(x[2])) for x in cy]}")
+                if cy:
+                    loc = f.loc(cy[0][3].node)
+        for msg in probs[:1]:
+            r.viol(key, loc, f"{key0}: {msg}")
+    ctx.extra.setdefault("paths_enumerated", {})[rid] = n_inst
+    r.floor(10 if only is None else 1)
 
 
 READ_BLOCK_REFS = {
@@ -143,36 +193,17 @@ def hit_rule(ctx: Ctx, rid: str = "R09.hit") -> None:
         f = m.method(cn, "_read_block")
         compare(r, m, f, ref, f"{cn}._read_block",
                 what="returns (cached block, True) on a hit and (block filled from below, False) on a miss, allocating the fill")
+    # the flag each counted method records is the lookup's verdict: the second result of _read_block, or `block is not None` of
+    # cache.read_block taken before the fill (the normal form substitutes the value the local had at that point)
     for f in funcs:
         key = short(f.qname)
-        sn = f.params[0]
-        hn = hit_names(f)
-        if not hn:
-            r.check(False, key, f.loc(), f"{key}: no hit flag computed")
-            continue
-        for h, how in hn.items():
-            if how == "unpack":
-                r.inst(f"{key}|{h}", "second result of self._read_block")
-                continue
-            x = how[4:]
-            binds = []
-            hit_line = None
-            for n in walk_no_nested(f.node):
-                if isinstance(n, ast.Assign):
-                    for t in n.targets:
-                        if isinstance(t, ast.Name) and t.id == x:
-                            binds.append(n)
-                        if isinstance(t, ast.Name) and t.id == h:
-                            hit_line = n.lineno if hit_line is None else min(hit_line, n.lineno)
-            binds.sort(key=lambda n: n.lineno)
-            first = binds[0] if binds else None
-            ok = first is not None and isinstance(first.value, ast.Call) and isinstance(first.value.func, ast.Attribute) \
-                and first.value.func.attr == "read_block" and self_attr(first.value.func.value, sn, "cache") \
-                and hit_line is not None and first.lineno < hit_line \
-                and all(b.lineno > hit_line for b in binds[1:])
-            r.check(ok, f"{key}|{h}", f.loc(first or f.node),
-                    f"{key}: hit flag `{h}` is not the cache lookup's verdict (must be `{x} is not None` "
-                    f"right after `{x} = self.cache.read_block(..)` and before `{x}` is refilled)")
+        st, _raises, fl = stat_stores(m, f)
+        vals = sorted({v[0] for v in st["last_was_hit"]})
+        D = "P0._decode_address(address=P1)"
+        ok = len(vals) == 1 and vals[0] in (f"P0._read_block(decoded_address={D})[1]", f"B:not(Is(None, P0.cache.read_block(decoded_address={D})))",
+                                             f"B:P0._read_block(decoded_address={D})[1]")
+        r.check(ok, f"{key}|hit", f.loc(), f"{key}: the recorded hit flag is `{vals}`; it must be the cache lookup's verdict for the accessed address "
+                "(`_read_block(..)[1]`, or `cache.read_block(..) is not None` before the block is refilled)")
     r.floor(13)
 
 
